@@ -37,7 +37,9 @@ MANIFEST = {
 
 def plan(tier):
     t = 400 if tier == "quick" else 900
-    parts = [f"0:{n},1:{h},2:{d}" for n in range(2) for h in range(3) for d in range(3)]  # first parameter: hint x docstring type
+    parts = [f"0:{n},1:{p},2:{r}" for n in range(2) for p in range(2) for r in range(7) if not (n == 1 and r in (3, 4))]  # parameters x preference x return hint
+    if tier == "thorough":  # ... x number of documented results
+        parts = [f"0:{n},1:{p},2:{r},3:{k}" for n in range(2) for p in range(2) for r in range(7) for k in range(3)]
     return [
         K("k_options", "kjobs.c14", "option_parsing", "from_string of the option enums"),
         CH("reconcile", "harness.c14", "reconcile", parts, timeout=t, desc="preference table, warning set, WARN == IGNORE output",
